@@ -30,7 +30,7 @@ def cases(tier, seed):
     for code in c01.table_codes():
         yield {"layer": "A", "suite": code, "seed": seed}
     for (v, code, etm, hs) in c01.SHAPE_CLASSES:
-        yield {"layer": "C", "v": v, "suite": code, "etm": etm, "hs": hs, "seed": seed}
+        yield {"layer": "C", "v": v, "suite": code, "etm": etm, "hs": hs, "seed": seed, "k": 1 if tier == "quick" else 2}
     yield {"layer": "Q", "d1": None, "seed": seed}
     for d1 in c02.ALTS:
         yield {"layer": "Q", "d1": d1, "seed": seed}
@@ -148,6 +148,16 @@ def run_case(case):
                 if c01.skip_shape(scn):
                     continue
                 tls_one(scn, {"layer": "C", "class": c01.class_name(v, code, etm, hs), "shape": {d1: str(val)}})
+                if case.get("k", 1) >= 2:
+                    for d2, vals2 in menu.items():
+                        if d2 <= d1 or (v == tls.SSL30 and d2 in ("exts", "pad_blocks")):
+                            continue
+                        for val2 in vals2:
+                            s2 = dict(scn)
+                            s2[d2] = val2
+                            if c01.skip_shape(s2):
+                                continue
+                            tls_one(s2, {"layer": "C", "class": c01.class_name(v, code, etm, hs), "shape": {d1: str(val), d2: str(val2)}})
     else:
         scs = [{}] if case["d1"] is None else [{case["d1"]: v} for v in c02.ALTS[case["d1"]]]
         for sc in scs:
